@@ -428,12 +428,14 @@ def classify_mismatch(dec, s, meta, obs, ref, diffs):
                 ref['encoding'] == 'bech32' and s != s.lower():
             return K_DA_UNK           # HRP compared in upper case: no network matches, still no refusal
         return None
-    if dec == 'Address.parse' and ref['encoding'] == 'bech32' and diffs == ['reencode']:
+    if dec == 'Address.parse' and ref['encoding'] == 'bech32' and diffs and set(diffs) <= {'reencode', 'payload'}:
         d = codec.segwit_decode(s)
         if d is None:
             return None
         hrp, ver, prog = d
         if len(prog) in (20, 32, 40):
+            if diffs != ['reencode']:
+                return None
             if ver >= 1 and obs.get('reencode') == codec.segwit_encode(hrp, 0, prog):
                 return K_PARSE_WITVER
             return None
